@@ -1126,6 +1126,8 @@ class xfunc_quantile(xfunc):
             N = len(w)
             if N == 0:
                 return NaN
+            if not self.ignore_missing and (numpy.isnan(a).any() or numpy.isnan(w).any()):
+                return NaN
 
             cs = w.cumsum(axis=0)
             prob = probability * cs[-1]
